@@ -530,7 +530,49 @@ def overflow_safe_depth_function(repo, rep):
         rep.ok("R-C15-11", f"{fi.file}:{fi.node.lineno} tma", "depth function", "growth terms appear on one side of each quotient only: the deep-water limit is finite")
 
 
+def full_circle_spreading(repo, rep):
+    """R-C15-12: wherever the package builds a directional distribution with a REQUESTED spread, the cartwright curve is taken over the full circle:
+    the effective value of `under_90` (explicit argument, else the parameter's default) is False.  Cut at +-90 deg and renormalised, a broad requested
+    spread (> ~25 deg) is not the spread of the result."""
+    from ..astutil import bound_args
+    rep.rule("R-C15-12", "the effective `under_90` of every cartwright() call in the package is False (explicitly or by the parameter's default)")
+    cw = repo.func("wavespectra.construct.direction.cartwright")
+    a = cw.node.args
+    names = [x.arg for x in a.posonlyargs + a.args]
+    default = None
+    if "under_90" in names:
+        k = names.index("under_90") - (len(names) - len(a.defaults))
+        default = repo.const(cw.module, a.defaults[k]) if k >= 0 else None
+    elif any(x.arg == "under_90" for x in a.kwonlyargs):
+        k = [x.arg for x in a.kwonlyargs].index("under_90")
+        default = repo.const(cw.module, a.kw_defaults[k]) if a.kw_defaults[k] is not None else None
+    else:
+        raise AnalysisError("cartwright: parameter under_90 vanished")
+    n_ = 0
+    for fi in repo.all_funcs():
+        if fi.module.name.startswith(("wavespectra.plot", "wavespectra.cli")) or fi is cw:
+            continue
+        for c in ast.walk(fi.node):
+            if isinstance(c, ast.Call) and call_name(c).split(".")[-1] == "cartwright":
+                sym = repo.resolve_expr(fi.module, c.func)
+                if sym is not cw:
+                    continue
+                n_ += 1
+                b = bound_args(repo, fi, c) or {}
+                eff = repo.const(fi.module, b["under_90"]) if "under_90" in b else default
+                if "under_90" in b and isinstance(b["under_90"], ast.Name) and b["under_90"].id in fi.params:
+                    rep.ok("R-C15-12", f"{fi.file}:{c.lineno} {fi.short}", unparse(c)[:70], "forwards its own caller's choice")
+                elif eff is False:
+                    rep.ok("R-C15-12", f"{fi.file}:{c.lineno} {fi.short}", unparse(c)[:70], "full-circle curve")
+                else:
+                    rep.fail("R-C15-12", fi.file, c.lineno, fi.qualname, unparse(c)[:90] + ("" if "under_90" in b else f"   [default under_90={default}]"),
+                             "the spreading curve is cut at +-90 degrees from the mean direction and renormalised: for a requested spread above ~25 degrees the "
+                             "spectrum built does not have the spread it was built from", anchor=f"cartwright-under90:{fi.short}")
+    rep.floor("R-C15-12", "cartwright() call sites", n_, 3)
+
+
 def run(repo, rep, tier):
+    full_circle_spreading(repo, rep)
     positive_divisors(repo, rep)
     overflow_safe_depth_function(repo, rep)
     rep.rule("R-C15-8", "every parameter of the functions behind this property is read (parametric shapes): none is accepted and then ignored, and no control parameter (cutoff, limit, tolerance, window, count, switch) is replaced by another value before use (coercion and default filling aside)")
